@@ -57,7 +57,7 @@ CFG = {
                   "any event shape / Uni), keypad_is_its_legend (otherwise the key is encoded exactly as the key its legend names, so every theorem about ordinary keys transfers), "
                   "keypad_mode_selects (the statement that was the witness of F413, now a theorem; xterm's Num Lock override explicit), keypad_roundtrip (29 keypad keys x 8 modifier sets x Num Lock x 3 shapes x 4 modes, "
                   "kernel decide over the regenerated tables: application code, or bytes of the legend key + its round trip; Begin = CSI E / SS3 E / CSI 1;m E decoded back), table theorems in both directions; "
-                  "Props/C13KeypadPipe - key_pipeline / keypad_key_pipeline (bytes of encodeXterm -> parser model -> one sequence -> decodeKey matches, over the whole 4840-event and 1392-event domains x 4 modes), the keypad reports parse back through the parser model, keypad_follows_child_stream (modes as last selected by the child's stream); Witness/F413 keeps the regression statements. "
+                  "Props/C13KeypadPipe - key_pipeline / keypad_key_pipeline (bytes of encodeXterm -> parser model -> one sequence -> decodeKey matches, over the whole 4880-event and 1392-event domains x 4 modes), the keypad reports parse back through the parser model, keypad_follows_child_stream (modes as last selected by the child's stream); Witness/F413 keeps the regression statements. "
                   "encodeXterm_body_eq_model re-proved compositionally (keypad prefix evaluated symbolically + coreBody = encodeXtermCore for both environment shapes). "
                   "Props/C13Uni: key_roundtrip_any_uni / keypad_roundtrip_any_uni - the two kernel-evaluated tables for EVERY unicode oracle that agrees with Go on ASCII and the key codes (congruence lemmas Lemmas/KeyCongr, TermKeyCongr; hypothesis evaluated on Go's tables by the hypk op). "
                   "F513 fixed (dd2d171, root decodeKey: SS3 E = Begin) so that Begin under DECCKM reads back. The oracle judges a keypad key by Spec.keypadJudgedAs (application code, or as the event of its legend key). "
